@@ -304,6 +304,9 @@ fn main() {
             "--rngemit" => {
                 i += 2
             }
+            "--rngfork" => {
+                i += 1
+            }
             "--rngstat" => {
                 rngstat_n = Some(args[i + 1].parse().unwrap());
                 i += 1
@@ -314,6 +317,10 @@ fn main() {
             }
         }
         i += 1;
+    }
+    if args.len() >= 3 && args[1] == "--rngfork" {
+        rngstat::fork_emit(&args[2]);
+        return;
     }
     if args.len() >= 4 && args[1] == "--rngemit" {
         rngstat::emit(&args[2], args[3].parse().unwrap());
